@@ -1416,6 +1416,16 @@ func allocatedHere(p *Prog, v ssa.Value, seen map[ssa.Value]bool) bool {
 		if as := p.directAllocs(x, 0); len(as) > 0 {
 			return true
 		}
+	case *ssa.Call:
+		// a constructor of the package (`newLoopInfo(parent)`): every return hands back what it allocated
+		if g := x.Common().StaticCallee(); g != nil && g.Blocks != nil && p.InPkg(g) && (g.Object() == nil || !g.Object().Exported()) && len(seen) <= 40 && g.Signature.Results().Len() == 1 {
+			for _, ret := range returnsOf(g) {
+				if !allocatedHere(p, res(ret, 0), seen) {
+					return false
+				}
+			}
+			return len(returnsOf(g)) > 0
+		}
 	case *ssa.Extract:
 		// the node a construction helper of the package hands back (`node, err = p.parseNext(node)`): every return of
 		// the helper hands back a node it allocated, the one it was given, or nil
